@@ -12,6 +12,7 @@ import (
 	"github.com/talostrading/sonic"
 	"github.com/talostrading/sonic/codec/websocket"
 	"github.com/talostrading/sonic/multicast"
+	"github.com/talostrading/sonic/sonicopts"
 )
 
 // C13: descriptor census (/proc/self/fd) around every constructor under injected failures, repeated Close with other
@@ -37,6 +38,7 @@ type fdObj struct {
 	fds      []int
 	live     bool
 	conn     fdReader
+	lsn      sonic.Listener // listener objects: accepts re-armed from their own callback
 	inflight bool // a read is deferred to the poller: the object must be in the IO's registry
 }
 
@@ -101,7 +103,11 @@ func runFDs(c *Case) []string {
 				continue
 			}
 			for _, fd := range o.fds {
-				if a := ioc.VerifRegisteredAddr(fd); a == 0 || a != sonic.VerifSlotAddr(o.conn) {
+				var owner any = o.conn
+				if o.lsn != nil {
+					owner = o.lsn
+				}
+				if a := ioc.VerifRegisteredAddr(fd); a == 0 || a != sonic.VerifSlotAddr(owner) {
 					return 0
 				}
 			}
@@ -166,11 +172,13 @@ func runFDs(c *Case) []string {
 			if a[1] == "inuse" {
 				addr = ln.Addr().String()
 			}
-			l, err := sonic.Listen(ioc, "tcp", addr)
+			l, err := sonic.Listen(ioc, "tcp", addr, sonicopts.Nonblocking(true))
 			if err != nil {
 				return reg(a[0], err, nil, nil)
 			}
-			return reg(a[0], nil, []int{l.RawFd()}, l.Close)
+			r := reg(a[0], nil, []int{l.RawFd()}, l.Close)
+			objs[a[0]].lsn = l
+			return r
 		case "packet":
 			addr := "127.0.0.1:0"
 			if a[1] == "inuse" {
@@ -277,6 +285,39 @@ func runFDs(c *Case) []string {
 				o.conn.AsyncRead(make([]byte, 4), func(error, int) {})
 			}
 			o.inflight = true
+			return fmt.Sprintf("open=%d intact=%d rooted=%d", delta(), intact(""), rooted(""))
+		case "aaccept":
+			// an accept loop: every completed accept closes the connection it got and accepts again
+			o := objs[a[0]]
+			if o != nil && o.lsn != nil && o.live && !o.inflight {
+				var again func()
+				again = func() {
+					o.lsn.AsyncAccept(func(err error, c sonic.Conn) {
+						if c != nil {
+							_ = c.Close()
+						}
+						if err == nil && o.live {
+							again()
+						} else {
+							o.inflight = false
+						}
+					})
+				}
+				o.inflight = true
+				again()
+			}
+			return fmt.Sprintf("open=%d intact=%d rooted=%d", delta(), intact(""), rooted(""))
+		case "connect":
+			// a client connects to listener a[0] and goes away again
+			if o := objs[a[0]]; o != nil && o.lsn != nil && o.live {
+				sa, err := syscall.Getsockname(o.lsn.RawFd())
+				if err == nil {
+					if c, err := net.Dial("tcp", fmt.Sprintf("127.0.0.1:%d", sa.(*syscall.SockaddrInet4).Port)); err == nil {
+						time.Sleep(2 * time.Millisecond)
+						_ = c.Close()
+					}
+				}
+			}
 			return fmt.Sprintf("open=%d intact=%d rooted=%d", delta(), intact(""), rooted(""))
 		case "areadall":
 			// a ReadAll of 8 bytes deferred to the poller; `feed` delivers a part, `poll` lets it read that part and wait again
